@@ -35,6 +35,7 @@ def main():
   from props import c14
   if 'other_first' in perts:
     c14.run_designer('eagle', ('d-55', 'c5'), 77, 2, 2)
+    c14.run_designer('eagle', ('x3c', 'd01'), 77, 2, 2)       # a look-alike of the ('x3d', 'd01') job: same names, ranges, counts
     c14.run_designer('random', ('x12',), 78, 2, 2)
   out = {}
   for name, keys, seed in job['jobs']:
